@@ -42,6 +42,57 @@ pub trait SeqOps {
     fn mask(&self, i: usize, ctx: Ctx) -> Vec<bool>;
     /// Serialize a lying iterator over value i announcing `announce` items.
     fn liar(&self, i: usize, announce: usize, ctx: Ctx) -> Out<usize>;
+    /// (label, header hashes of a type mentioning the slice / iterator wrapper, header hashes
+    /// of the same type with the vector in its place)
+    fn wrapper_hashes(&self) -> Vec<(&'static str, (u64, u64), (u64, u64))>;
+    /// `vec![&v[..], &v[..]]` (a vector of slice references) serialized, then read back as a
+    /// vector of vectors in both modes; also the hash words of the two streams.
+    fn nested_slices(&self, i: usize) -> Out<(Val, Val, [u8; 16], [u8; 16])>;
+}
+
+fn hp<X: TypeHash + AlignHash>() -> (u64, u64) {
+    use core::hash::Hasher;
+    let mut th = xxhash_rust::xxh3::Xxh3::new();
+    X::type_hash(&mut th);
+    let mut ah = xxhash_rust::xxh3::Xxh3::new();
+    X::align_hash(&mut ah, &mut 0);
+    (th.finish(), ah.finish())
+}
+
+macro_rules! common_wrappers {
+    ($t:ty) => {
+        vec![
+            ("&[T] / Vec<T>", hp::<&[$t]>(), hp::<Vec<$t>>()),
+            ("Vec<&[T]> / Vec<Vec<T>>", hp::<Vec<&[$t]>>(), hp::<Vec<Vec<$t>>>()),
+            ("Option<&[T]> / Option<Vec<T>>", hp::<Option<&[$t]>>(), hp::<Option<Vec<$t>>>()),
+            ("&[&[T]] / Vec<Vec<T>>", hp::<&[&[$t]]>(), hp::<Vec<Vec<$t>>>()),
+            ("[&[T]; 2] / [Vec<T>; 2]", hp::<[&[$t]; 2]>(), hp::<[Vec<$t>; 2]>()),
+            ("Box<[&[T]]> / Box<[Vec<T>]>", hp::<Box<[&[$t]]>>(), hp::<Box<[Vec<$t>]>>()),
+            ("G1<&[T]> / G1<Vec<T>>", hp::<G1<&[$t]>>(), hp::<G1<Vec<$t>>>()),
+            ("GE<&[T], Vec<u8>> / GE<Vec<T>, Vec<u8>>", hp::<GE<&[$t], Vec<u8>>>(), hp::<GE<Vec<$t>, Vec<u8>>>()),
+        ]
+    };
+}
+
+macro_rules! nested_slices {
+    ($t:ty, $v:expr) => {{
+        let v: &Vec<$t> = $v;
+        o3(guarded(|| -> Result<(Val, Val, [u8; 16], [u8; 16]), String> {
+            let outer: Vec<&[$t]> = vec![&v[..], &v[..]];
+            let mut b: Vec<u8> = Vec::new();
+            outer.serialize(&mut b).map_err(|e| format!("ser: {:?}", e))?;
+            let mut vb: Vec<u8> = Vec::new();
+            vec![v.clone(), v.clone()].serialize(&mut vb).map_err(|e| format!("ser vec: {:?}", e))?;
+            let mut cur = std::io::Cursor::new(&b[..]);
+            let full = <Vec<Vec<$t>>>::deserialize_full(&mut cur).map_err(|e| format!("full: {}", err_kind(&e)))?.to_val();
+            let mut arena = Arena::new(b.len() + 4096);
+            let placed = arena.place(0, &b);
+            let eps = <Vec<Vec<$t>>>::deserialize_eps(placed).map_err(|e| format!("eps: {}", err_kind(&e)))?.eps_val();
+            let mut h = [0u8; 16]; h.copy_from_slice(&b[13..29]);
+            let mut vh = [0u8; 16]; vh.copy_from_slice(&vb[13..29]);
+            Ok((full, eps, h, vh))
+        }))
+    }};
 }
 
 fn o3<V>(r: Result<Result<V, String>, String>) -> Out<V> { match r { Ok(Ok(v)) => Out::Ok(v), Ok(Err(e)) => Out::Err(e), Err(p) => Out::Panic(p) } }
@@ -133,6 +184,14 @@ macro_rules! seq_ops {
                 let mut sink: Vec<u8> = Vec::new();
                 o3(guarded(|| ser_ctx!(SerIter::from(Liar { inner: v.iter(), announce }), ctx, &mut sink).map_err(|e| format!("{:?}", e))))
             }
+            fn wrapper_hashes(&self) -> Vec<(&'static str, (u64, u64), (u64, u64))> {
+                let mut v = common_wrappers!($t);
+                v.push(("SerIter<T, slice::Iter> / Vec<T>", hp::<SerIter<'static, $t, std::slice::Iter<'static, $t>>>(), hp::<Vec<$t>>()));
+                v.push(("SerIter<T, Liar> / Vec<T>", hp::<SerIter<'static, $t, Liar<'static, $t>>>(), hp::<Vec<$t>>()));
+                v.push(("G1<SerIter<T, _>> / G1<Vec<T>>", hp::<G1<SerIter<'static, $t, std::slice::Iter<'static, $t>>>>(), hp::<G1<Vec<$t>>>()));
+                v
+            }
+            fn nested_slices(&self, i: usize) -> Out<(Val, Val, [u8; 16], [u8; 16])> { let vals = self.0.borrow(); nested_slices!($t, &vals[i]) }
         }
     };
     ($name:ident, $t:ty, deep) => {
@@ -174,6 +233,8 @@ macro_rules! seq_ops {
                 }
             }
             fn liar(&self, _i: usize, _announce: usize, _ctx: Ctx) -> Out<usize> { unreachable!() }
+            fn wrapper_hashes(&self) -> Vec<(&'static str, (u64, u64), (u64, u64))> { common_wrappers!($t) }
+            fn nested_slices(&self, i: usize) -> Out<(Val, Val, [u8; 16], [u8; 16])> { let vals = self.0.borrow(); nested_slices!($t, &vals[i]) }
         }
     };
 }
@@ -228,9 +289,30 @@ pub fn c16(ops: &dyn SeqOps, cx: &mut Cx) {
             }
         }
     }
+    // the wrappers share both header hashes with the vector wherever they appear in a type
+    for (label, w, v) in ops.wrapper_hashes() {
+        cx.evals += 1;
+        cx.outcome(if w == v { "wrapper-hashes-equal" } else { "wrapper-hashes-differ" });
+        if w.0 != v.0 { cx.violate("wrapper-type-hash-differs-from-vec", json!({"types": label, "wrapper": format!("{:016x}", w.0), "vector": format!("{:016x}", v.0)})); }
+        if w.1 != v.1 { cx.violate("wrapper-align-hash-differs-from-vec", json!({"types": label, "wrapper": format!("{:016x}", w.1), "vector": format!("{:016x}", v.1)})); }
+    }
     for i in 0..n {
         let want = ops.val(i);
         cx.case(vcore::cx::hash64(&[cx.type_id.as_bytes(), format!("{:?}", want).as_bytes()]), true);
+        // a vector of slice references reads back as a vector of vectors
+        if i < cx.tier.pick(12, 60) {
+            cx.evals += 1;
+            cx.transitions += 2;
+            let two = Val::Seq(vec![want.clone(), want.clone()]);
+            match ops.nested_slices(i) {
+                Out::Ok((f, e, h, vh)) => {
+                    cx.outcome("nested-slices-ok");
+                    if f != two || e != two { cx.violate("vec-of-slices-read-back-differs", json!({"value": vdesc(i, &want), "full": format!("{:?}", f), "eps": format!("{:?}", e)})); }
+                    if h != vh { cx.violate("vec-of-slices-header-hashes-differ-from-vec-of-vecs", json!({"value": vdesc(i, &want)})); }
+                }
+                o => cx.violate(&format!("vec-of-slices-{}", o.class()), json!({"value": vdesc(i, &want), "observed": o.describe()})),
+            }
+        }
         for ctx in CTXS {
             cx.evals += 1;
             let (rv, vb) = sink_all(ops, i, Src::Vec, ctx);
